@@ -1,2 +1,162 @@
-(* Property C18 - statements only (proofs in Proofs/C18.v). Not built yet. *)
-From SC.Model Require Import Base.
+(* Property C18 - custom rules and user-defined unit families: registration, effect, removal.
+   STATEMENTS ONLY (proofs: Proofs/C18.v).  The public API is the state machine Corr.step;
+   [rules_of m lang] is the rule list of a language, [api_of] / [internal_of] its API and
+   built-in parts in order, [remove_first] the reference meaning of delete_rule, [final] the
+   state after a history.  API rules are the closed family of Types.rulekind (implemented
+   identically in the harness). *)
+From Coq Require Import Floats.
+From SC.Model Require Import Base Num NumF64 FloatIO Types Config Case Match Chrono UiTokens Rx Post Parser Items Interp
+     RuleFns Rules Format Lexer Api Run64 Corr.
+From SC.Proofs Require Import C04 C18.
+
+(* add_rule: refused (nothing changes) exactly for an unknown language; otherwise the rule is
+   appended behind all existing rules of that language and nothing else changes *)
+Theorem C18_add_rule : forall ck m lang patterns name kind k cur ps0,
+  tokenise_patterns LX ck (m_cfg m) lang patterns = Ok ps0 ->
+  let r := step ck m (OAddRule lang patterns name kind k cur) in
+  match rules_of m lang with
+  | None => r = (m, MRet (Some false))
+  | Some rs =>
+    snd r = MRet (Some true) /\
+    rules_of (fst r) lang = Some (rs ++ [RApi (nonempty_pats ps0) (mk_api name kind k cur)]) /\
+    (forall l', l' <> lang -> rules_of (fst r) l' = rules_of m l') /\
+    same_but_rules (m_cfg m) (m_cfg (fst r)) /\ m_sessions (fst r) = m_sessions m
+  end.
+Proof. exact add_rule_spec. Qed.
+
+(* delete_rule: refused (nothing changes) exactly for an unknown language or name; otherwise
+   the FIRST registration of that name is removed, the other registrations keep their order and
+   the built-in rules are untouched *)
+Theorem C18_delete_rule : forall ck m lang name,
+  let r := step ck m (ODeleteRule lang name) in
+  match rules_of m lang with
+  | None => r = (m, MRet (Some false))
+  | Some rs =>
+    if has_name name (api_of rs) then
+      snd r = MRet (Some true) /\
+      (exists rs', rules_of (fst r) lang = Some rs' /\
+                   api_of rs' = remove_first name (api_of rs) /\ internal_of rs' = internal_of rs) /\
+      (forall l', l' <> lang -> rules_of (fst r) l' = rules_of m l') /\
+      same_but_rules (m_cfg m) (m_cfg (fst r)) /\ m_sessions (fst r) = m_sessions m
+    else r = (m, MRet (Some false))
+  end.
+Proof. exact delete_rule_spec. Qed.
+
+(* all histories of registrations and deletions: the API rules are exactly the reference list
+   (add appends, delete removes the first of that name), i.e. the surviving registrations in
+   registration order; the built-in rules, the other languages and the sessions are untouched *)
+Theorem C18_rule_history : forall ck lang ops ros m rs,
+  rules_of m lang = Some rs -> realises ck lang m ops ros ->
+  exists rs', rules_of (final ck m ops) lang = Some rs' /\
+              api_of rs' = fold_left spec_rop ros (api_of rs) /\
+              internal_of rs' = internal_of rs /\
+              (forall l', l' <> lang -> rules_of (final ck m ops) l' = rules_of m l') /\
+              m_sessions (final ck m ops) = m_sessions m.
+Proof. exact rule_history. Qed.
+
+(* register then delete: the previous registrations are restored *)
+Theorem C18_delete_restores : forall name l p a,
+  has_name name l = false -> ar_name a = name -> remove_first name (l ++ [(p, a)]) = l.
+Proof. exact remove_first_snoc. Qed.
+
+(* a rule that declines: the rewrite loop over a rule list containing it (anywhere) is the
+   loop over the list without it, for every line, fuel and state; it never panics *)
+Theorem C18_decline_absent : forall bexec now_year line cfg lang vs ps ar pre post,
+  ar_kind ar = RDecline -> Forall (fun p => p <> []) ps ->
+  forall fuel st,
+  rule_loop bexec now_year fuel line cfg lang vs (pre ++ RApi ps ar :: post) st =
+  rule_loop bexec now_year fuel line cfg lang vs (pre ++ post) st.
+Proof. exact decline_loop. Qed.
+
+Theorem C18_stored_patterns_nonempty : forall ps0, Forall (fun p => p <> []) (nonempty_pats ps0).
+Proof. exact nonempty_pats_ok. Qed.
+
+(* matching never panics on a non-empty pattern *)
+Theorem C18_find_match_total : forall vs pat tokens, pat <> [] -> exists m, find_match vs pat tokens = Ok m.
+Proof. exact find_match_ok. Qed.
+
+(* unit families: duplicates are refused without any change *)
+Theorem C18_add_type : forall ck m name,
+  let r := step ck m (OAddType name) in
+  match assoc name (cf_types (m_cfg m)) with
+  | Some _ => r = (m, MRet (Some false))
+  | None => snd r = MRet (Some true) /\
+            cf_types (m_cfg (fst r)) = assoc_insert name [] (cf_types (m_cfg m)) /\
+            cf_rules (m_cfg (fst r)) = cf_rules (m_cfg m) /\ m_sessions (fst r) = m_sessions m
+  end.
+Proof. exact add_type_spec. Qed.
+
+Theorem C18_add_type_item_duplicate : forall ck m name index format parse up down names digits rnd rm g d,
+  assoc name (cf_types (m_cfg m)) = Some g -> nassoc index g = Some d ->
+  step ck m (OAddTypeItem name index format parse up down names digits rnd rm) = (m, MRet (Some false)).
+Proof. exact add_type_item_duplicate. Qed.
+
+Theorem C18_add_type_item_unknown_family : forall ck m name index format parse up down names digits rnd rm,
+  assoc name (cf_types (m_cfg m)) = None ->
+  step ck m (OAddTypeItem name index format parse up down names digits rnd rm) = (m, MRet (Some false)).
+Proof. exact add_type_item_unknown_family. Qed.
+
+Theorem C18_add_type_item_new : forall ck m name index format parse up down names digits rnd rm g ps0,
+  assoc name (cf_types (m_cfg m)) = Some g -> nassoc index g = None ->
+  tokenise_patterns LX ck (m_cfg m) (s "en") parse = Ok ps0 ->
+  let r := step ck m (OAddTypeItem name index format parse up down names digits rnd rm) in
+  snd r = MRet (Some true) /\
+  cf_types (m_cfg (fst r)) =
+    assoc_insert name (ninsert index {| dt_group := name; dt_index := index; dt_format := format;
+                                        dt_parse := nonempty_pats ps0; dt_up := up; dt_down := down;
+                                        dt_names := names; dt_digits := digits; dt_round := rnd; dt_rm := rm |} g)
+                 (cf_types (m_cfg m)) /\
+  cf_rules (m_cfg (fst r)) = cf_rules (m_cfg m).
+Proof. exact add_type_item_new. Qed.
+
+(* non-vacuity, computed through the whole model at binary64: two rules with overlapping
+   patterns, evaluation, deletion of the first, evaluation; then a user-defined family
+   (12 penny = 1 shilling, 20 shilling = 1 pound) converting along its chain *)
+Definition c18_ck : clock := {| ck_today := 20000; ck_year := 2024 |}.
+Definition two : float := Eval vm_compute in f64_of_Z 2.
+Definition ten : float := Eval vm_compute in f64_of_Z 10.
+Definition c18_hist : list op :=
+  [OAddRule (s "en") [s "{NUMBER:x} widgets"] (s "double") RScale two [];
+   OAddRule (s "en") [s "{NUMBER:x} widgets"] (s "tenfold") RScale ten [];
+   OAddRule (s "xx") [s "{NUMBER:x} widgets"] (s "nolang") RScale ten [];
+   OExec (s "en") (s "3 widgets");
+   ODeleteRule (s "en") (s "double");
+   OExec (s "en") (s "3 widgets");
+   ODeleteRule (s "en") (s "double");
+   ODeleteRule (s "en") (s "tenfold");
+   OExec (s "en") (s "3 widgets");
+   OAddType (s "coin"); OAddType (s "coin");
+   OAddTypeItem (s "coin") 1 (s "{value} d") [s "{NUMBER:value} {TEXT:type:penny}"] (s "{value} / 12") (s "{value}") [s "penny"] None None None;
+   OAddTypeItem (s "coin") 2 (s "{value} s") [s "{NUMBER:value} {TEXT:type:shilling}"] (s "{value} / 20") (s "{value} * 12") [s "shilling"] None None None;
+   OAddTypeItem (s "coin") 3 (s "{value} L") [s "{NUMBER:value} {TEXT:type:pound}"] (s "{value}") (s "{value} * 20") [s "pound"] None None None;
+   OAddTypeItem (s "coin") 3 (s "{value} X") [s "{NUMBER:value} {TEXT:type:pound}"] (s "{value}") (s "{value} * 2") [s "pound"] None None None;
+   OExec (s "en") (s "480 penny to pound");
+   OExec (s "en") (s "1 pound to penny")].
+Definition c18_show (o : mobs) : list (option str) :=
+  match o with
+  | MRes r => map (fun l => match l with
+                            | Some lo => match lo_result lo with LOk out _ => Some out | LErr _ => None end
+                            | None => None end) (er_lines r)
+  | MRet (Some true) => [Some (s "true")]
+  | MRet (Some false) => [Some (s "false")]
+  | _ => []
+  end.
+Theorem C18_example :
+  map c18_show (run c18_ck init_state c18_hist) =
+  map (fun x => [Some (s x)])
+      ["true"; "true"; "false"; "6"; "true"; "30"; "false"; "true"; "3"; "true"; "false"; "true"; "true"; "true";
+       "false"; "2 L"; "240 d"]%string.
+Proof. vm_compute. reflexivity. Qed.
+
+Print Assumptions C18_add_rule.
+Print Assumptions C18_delete_rule.
+Print Assumptions C18_rule_history.
+Print Assumptions C18_delete_restores.
+Print Assumptions C18_decline_absent.
+Print Assumptions C18_stored_patterns_nonempty.
+Print Assumptions C18_find_match_total.
+Print Assumptions C18_add_type.
+Print Assumptions C18_add_type_item_duplicate.
+Print Assumptions C18_add_type_item_unknown_family.
+Print Assumptions C18_add_type_item_new.
+Print Assumptions C18_example.
